@@ -128,7 +128,8 @@ bytes hash_string_reuse(int alg, const bytes &decoy, const bytes &m);
 // decoy: a second filebuffer64 over these bytes is alive while `file` is hashed
 // how: 0 = a seekable stream positioned at `pos` with fseek; 1 = a pipe: the bytes from `pos` on arrive through a stream that
 // cannot seek or tell; 2 = the caller has read the stream to its end before (end-of-file indicator set, no seek since):
-// what is left to hash is the empty message
+// what is left to hash is the empty message; 3 = a pipe carrying the whole file of which the caller has read the first `pos` bytes
+// through stdio (stdio holds read-ahead of what follows)
 bytes hash_filebuf(int alg, const bytes &file, size_t pos, int refill_units, const bytes *prefix64, const bytes *decoy = nullptr, int how = 0);
 // synthetic stream of `len` bytes (byte i = pattern(i)) through a buffer64 subclass, no file involved
 bytes hash_synth(int alg, uint64_t len, uint32_t pat);
@@ -138,8 +139,8 @@ inline uint8_t synth_byte(uint64_t i, uint32_t pat) { return (uint8_t)((i * 2654
 int hash_len(int alg);
 int refill_capacity();
 
-bytes hmac_get(int hmode, const bytes &key, const bytes &file, size_t pos, int refill_units);
-bool hmac_cmp(int hmode, const bytes &key, const bytes &file, size_t pos, const bytes &tag64, int refill_units);
+bytes hmac_get(int hmode, const bytes &key, const bytes &file, size_t pos, int refill_units, int how = 0); // how: as hash_filebuf
+bool hmac_cmp(int hmode, const bytes &key, const bytes &file, size_t pos, const bytes &tag64, int refill_units, int how = 0);
 // HMAC over a synthetic stream of `len` bytes (byte i = synth_byte(i, pat)) from position `pos` to the end, nothing
 // materialised; when cmp_tag is given, cmphmac is run on it as well
 bytes hmac_synth(int hmode, const bytes &key, uint64_t len, uint32_t pat, uint64_t pos, const bytes *cmp_tag, bool *cmp_result);
@@ -185,6 +186,9 @@ void mode_run_raw(void *h, uint8_t *block); // in place, no canary copy (used fr
 void *factory_new(const uint8_t key[16], const uint8_t iv[16]);
 void *factory_make(void *f, bool enc, int type);
 void factory_free(void *f);
+// a COPY of the factory object (copy construction, if the class allows it - else NULL) that is then given another IV with
+// loadiv(); the source factory is given yet another IV afterwards. Objects made from the copy must use the copy's IV.
+void *factory_copy(void *f, const uint8_t iv_for_copy[16], const uint8_t iv_for_source_afterwards[16]);
 
 // base64: out buffers are allocated with exactly `out_cap` bytes on the heap (ASan guards the rest)
 std::string b64_encode(const bytes &in, size_t out_cap, bool &terminated, size_t &written_upto);
